@@ -5,7 +5,7 @@ from rules import commits
 from rules.order import call_named, check_order, report_order
 from sa.deps import Facts, base_name, names_in, pseudo
 from sa.loader import AnalysisError, own_nodes
-from sa.model import u, where
+from sa.model import alpha_text, u, where
 from sa.pattern import find_expr, find_stmt, has_expr, has_stmt, match_expr, match_stmt
 
 SETTERS = ('inc_attr', 'set_attr')
@@ -174,9 +174,15 @@ def check(ctx):
               'process() stats lack %s' % sorted(want))
     # dotted-path helpers agree with each other (set/inc/get walk the same path)
     for name in ('get_attr', 'set_attr', 'inc_attr'):
-        f = db.methods.get(name)
-        ok = has_stmt("_p = _p.split('.')", f.node) and has_stmt('if _p is None:\n    return', f.node) and \
-            len(find_stmt('while len(_p) > 1:\n    _o = __STEP', f.node)) == 1 and has_expr('_p.pop(0)', f.node)
+        f = ctx.N(db.methods.get(name))
+        prm = f.params[1]
+        sp_ = find_stmt("_q = %s.split('.')" % prm, f.node)
+        ok = len(sp_) == 1 and has_stmt('if %s is None:\n    return' % prm, f.node)
+        if ok:
+            q = sp_[0][1]['_q']
+            ok = len(find_stmt('while len(%s) > 1:\n    _o = _o2.setdefault(%s.pop(0), {})' % (q, q), f.node)) + \
+                len(find_stmt('while len(%s) > 1:\n    _o = _o2.get(%s.pop(0), {})' % (q, q), f.node)) + \
+                len(find_stmt('while len(%s) > 1:\n    _o = __STEP' % q, f.node)) >= 1 and has_expr('%s.pop(0)' % q, f.node)
         run.check(ok, 'R19r', f.where, f.qualname, 'dotted path walk, None disables',
                   '%s does not walk the dotted counter path / honour a disabled (None) counter' % name)
     inc = db.methods.get('inc_attr')
@@ -186,7 +192,7 @@ def check(ctx):
 
     run.rule('R19b', 'SEALED: between serialising the package descriptor (json.dump) and reading the stats out of it nothing is '
                      'stored into the descriptor, so process() stats equal the written descriptor')
-    fhd = fd.methods.get('handle_datapackage')
+    fhd = ctx.N(fd.methods.get('handle_datapackage'), keep=('inc_attr', 'set_attr', 'get_attr', 'write_file_to_output'))
     preds = {'DUMP': commits.ext(ctx, 'json.dump'),
              'STORE': lambda x: isinstance(x, ast.Call) and isinstance(x.func, ast.Attribute) and x.func.attr in SETTERS
              and x.args and 'self.datapackage.descriptor' in u(x.args[0]),
@@ -195,7 +201,7 @@ def check(ctx):
                                 required=['DUMP', 'READOUT'])
     if problems:
         for (constraint, node), p in problems.items():
-            run.fail('R19b', where(repo, node), fhd.qualname, u(node),
+            run.fail('R19b', where(repo, node), fhd.qualname, alpha_text(node, fhd.node),
                      'the descriptor is modified after it was serialised: the stats returned by process() (and any later reader '
                      'of the in-memory descriptor) disagree with the written datapackage.json', path=p.describe())
     else:
